@@ -9,6 +9,7 @@ import FuraxModel.Expected
 import FuraxGenerated.Tables
 import FuraxProofs.Lemmas.Nary
 import FuraxProofs.Lemmas.ScalarModel
+import FuraxProofs.Lemmas.RuleLawsModel
 namespace Furax.C01
 open Furax
 
@@ -22,7 +23,64 @@ theorem registry_names :
 /-- … and every rule's `check` / `apply` still resolves to the function the model transcribes. -/
 theorem rule_methods_pinned : Generated.ruleMethods = expectedRuleMethods := by decide
 
-/-- **Driver soundness, any context.**  For *any* list of sound binary rules, *any* well-typed chain (any
+/-! ### The closed statement: `reduce` itself, with the thirteen registered rules
+
+`WTExpr inv leafOK o` is "every node of `o` passed its constructor's validation" (chains and containers have
+matching structures, lazy inverses wrap square invertible operands, …).  `RuleLaws A` / `ContainerLaws A laws`
+name, rule by rule, the leaf facts about the denotation the rules rely on (two swapped move-axis operators undo
+each other, R(a)R(b) = R(a+b), P H = P, the container of slot-wise products is the product of the containers, …);
+they are hypotheses here and are what the kernel-level theorems of C10, C12, C13, C16 and the differential oracle
+establish for the implementation.  The invertibility of the operand of a lazy inverse is NOT a law but part of
+`WTExpr` — exactly the hypothesis a singular `DiagonalOperator.I` violates (finding F13). -/
+
+/-- **`reduce()` never changes the denoted map**: for every fuel (number of nested `reduce` calls the recursion
+is allowed), every well-formed expression `o` of any size, depth and mix of node kinds, if the model's `reduce`
+returns `r` then `r` is well formed, has the same input and output structures and denotes the same map on the
+whole input space. -/
+theorem reduce_sound {V : Type} (A : ArithSem V) (laws : RuleLaws A) (extra : ContainerLaws A laws) :
+    ∀ fuel o r, WTExpr A.invertible laws.leafOK o → reduce fuel o = .ok r →
+      WTExpr A.invertible laws.leafOK r ∧ Op.inS r = Op.inS o ∧ Op.outS r = Op.outS o ∧
+      ∀ x, A.mem (Op.inS o) x → A.den r x = A.den o x :=
+  Furax.reduce_sound A laws extra
+
+/-- the entry point the driver executes for the `reduce` request -/
+theorem reduceTop_sound {V : Type} (A : ArithSem V) (laws : RuleLaws A) (extra : ContainerLaws A laws)
+    (o r : Op) (hw : WTExpr A.invertible laws.leafOK o) (h : reduceTop o = .ok r) :
+    WTExpr A.invertible laws.leafOK r ∧ Op.inS r = Op.inS o ∧ Op.outS r = Op.outS o ∧
+    ∀ x, A.mem (Op.inS o) x → A.den r x = A.den o x :=
+  Furax.reduceTop_sound A laws extra o r hw h
+
+/-- **every registered binary rule is sound on well-formed operands**, for any sound recursive call -/
+theorem every_rule_sound {V : Type} (A : ArithSem V) (laws : RuleLaws A) (red : Op → Except PyErr Op)
+    (hred : RedSound A laws red) :
+    ∀ ru ∈ binaryRules red, A.toOpSem.toSem.RuleSoundOn laws.WT ru :=
+  binaryRules_sound A laws red hred
+
+/-- the unrelativised rule soundness (`Sem.RuleSound`, quantifying over ALL operand pairs) is false of the real
+registry in every semantics: `InverseBinaryRule` fires on `o, DiagonalInverseOperator(o)` for a non-square `o`.
+The two theorems after this one are therefore stated for an abstract rule list and used only through
+`RuleSoundOn` (FuraxProofs/Lemmas/ScanOn.lean) for the registry. -/
+theorem unrelativised_rule_soundness_is_false {V : Type} (A : ArithSem V) (s t : Struct) (hst : s ≠ t) :
+    ¬ A.toOpSem.toSem.RuleSound inverseBinaryRule :=
+  inverseBinaryRule_not_RuleSound A s t hst
+
+/-- the hypotheses of `reduce_sound` are jointly satisfiable (degenerate witness: scalar denotation, value space
+`{0}`), and `WTExpr` is inhabited by the shapes the rules rewrite (examples in Lemmas/RuleLawsModel.lean) -/
+theorem reduce_sound_hypotheses_consistent :
+    ∃ (A : ArithSem Rat) (laws : RuleLaws A), ContainerLaws A laws :=
+  ⟨zeroArithSem, zeroRuleLaws, zeroContainerLaws⟩
+
+/-- **Driver soundness relative to an operand invariant `P`** (instantiated with `WTExpr` above): for any rule
+list sound on `P`-operands, any `P`-chain of any length, any starting index, any fuel, the scan returns a
+`P`-chain between the same structures denoting the same map. -/
+theorem scan_sound_on_every_chain {V : Type} (L : OpSem V) (P : Op → Prop) (hhom : ∀ v s, P (Op.mkHomothety v s))
+    (red : Op → Except PyErr Op) (hr : ∀ ru ∈ binaryRules red, L.toSem.RuleSoundOn P ru) :
+    ∀ fuel ops index res s t, (∀ o ∈ ops, P o) → L.toSem.WT ops s t →
+      scan (reductionCfg red) fuel ops index = .ok (some res) →
+      (∀ o ∈ res, P o) ∧ L.toSem.WT res s t ∧ ∀ x, L.mem s x → L.toSem.app res x = L.toSem.app ops x :=
+  scan_sound_on L.toSem P (reductionCfg red) (L.cfg_rules_sound_on P red hr) (L.homothetyRule_sound_on P hhom)
+
+/-- **Driver soundness, any context** (abstract rule list; see `unrelativised_rule_soundness_is_false`).  For *any* list of sound binary rules, *any* well-typed chain (any
 length), *any* starting index, *any* number of rewrites (fuel) and *any* firing order the registry order
 induces, the scan returns a chain between the same structures denoting the same map. -/
 theorem scan_sound_every_chain {V : Type} (L : OpSem V) (red : Op → Except PyErr Op)
@@ -32,7 +90,7 @@ theorem scan_sound_every_chain {V : Type} (L : OpSem V) (red : Op → Except PyE
       L.toSem.WT res s t ∧ ∀ x, L.mem s x → L.toSem.app res x = L.toSem.app ops x :=
   scan_sound L.toSem (reductionCfg red) (L.cfg_rules_sound red hr) L.homothetyRule_sound
 
-/-- **`AlgebraicReductionRule.apply` is sound**: identity removal, scalar merging/relocation (any number
+/-- **`AlgebraicReductionRule.apply` is sound** (abstract rule list): identity removal, scalar merging/relocation (any number
 of scalar factors, on whichever side the code chooses), the scan, and the "empty chain becomes an
 identity" clause. -/
 theorem algebraicReduction_sound {V : Type} (L : OpSem V) (red : Op → Except PyErr Op)
